@@ -221,8 +221,8 @@ func (s *StreamScanner) Text() string {
 }
 
 func (s *StreamScanner) isDelimiterExpr() (error, bool) {
-	if s.i == 0 && s.fill-s.i < delimPrefixLen {
-		// need to see first |delimPrefixLen| characters
+	for !s.isEOF && s.fill-s.i < delimPrefixLen {
+		// need to see first |delimPrefixLen| characters of the statement, wherever it starts in the buffer
 		if err := s.read(); err != nil {
 			s.err = err
 			return err, false
